@@ -1142,4 +1142,15 @@ def PColl.byCertificate (P : PColl) (o : CertOrigin) : Option Prov :=
 def Auth.requestFrom (s : Auth) (o : CertOrigin) (r : AdminReq) : Auth × AdminAuthz :=
   s.request { r with prov := (s.cache.P.byCertificate o).map (·.name) }
 
+/-- the lookup the property asks for: a certificate whose database record names a provisioner is a
+    certificate of *that* provisioner or of none; the name in the extension only speaks for
+    certificates without a record (what `authorizeRenew` already does; notes/C16.md, finding C16-O4) -/
+def PColl.byCertificateStrict (P : PColl) (o : CertOrigin) : Option Prov :=
+  match o.recorded with
+  | some id => P.byID.get id
+  | none => o.extName.bind P.byName.get
+
+def Auth.requestFromStrict (s : Auth) (o : CertOrigin) (r : AdminReq) : Auth × AdminAuthz :=
+  s.request { r with prov := (s.cache.P.byCertificateStrict o).map (·.name) }
+
 end Verif.Admin
